@@ -155,6 +155,8 @@ class CallMixin:
                     env[n] = self.const_val(d)
         if con is not None:
             for n, t in con.params.items():
+                if n in env and t[0] == "list" and env[n].t[0] == "set" and getattr(self, "_bind_state", None) is not None:
+                    env[n] = self.lib.enumerate_set(self._bind_state, env[n].z, env[n].t[1], "aslist")
                 if n in env and n not in getattr(con, "untyped", ()):
                     env[n] = self.coerce(self.adapt_empty(env[n], t), t, node)
         return env
@@ -207,7 +209,26 @@ class CallMixin:
         cmod = fm[0] if fm else None
         if con.external and con.params:
             fdef = None
-        env = self.bind_params(fdef, con, self_val, args, kwargs, cmod, node)
+        if fdef is not None and self_val is not None and not getattr(self, "_in_guard", False):
+            decos = [d.id if isinstance(d, ast.Name) else getattr(d, "attr", "") for d in fdef.decorator_list]
+            if "requires_connection" in decos:
+                out = []
+                cz = self.truth(self.load_field(st, self_val, "_connected"))
+                for s2, ok in self.split(st, cz):
+                    if ok:
+                        self._in_guard = True
+                        try:
+                            out.extend(self.apply_contract(con, self_val, args, kwargs, s2, node, fm))
+                        finally:
+                            self._in_guard = False
+                    else:
+                        out.append((s2, Exc("NotConnectedError", "requires_connection", getattr(node, "lineno", 0))))
+                return out
+        self._bind_state = st
+        try:
+            env = self.bind_params(fdef, con, self_val, args, kwargs, cmod, node)
+        finally:
+            self._bind_state = None
         if con.handler is not None:
             return con.handler(self, st, env, node)
         if con.ghost_entry:
